@@ -28,6 +28,8 @@ Lemma est_eqb_eq a b : est_eqb a b = true -> a = b.
 Proof. destruct a, b; simpl; intro; try discriminate; reflexivity. Qed.
 Lemma errk_eqb_eq a b : errk_eqb a b = true -> a = b.
 Proof. destruct a, b; simpl; intro; try discriminate; reflexivity. Qed.
+Lemma fres_eqb_eq a b : fres_eqb a b = true -> a = b.
+Proof. destruct a, b; simpl; intro E; try discriminate; try reflexivity. apply errk_eqb_eq in E. now subst. Qed.
 Lemma ev_eqb_eq a b : ev_eqb a b = true -> a = b.
 Proof. destruct a, b; simpl; intro E; try discriminate; try reflexivity. apply N.eqb_eq in E. now subst. Qed.
 Lemma entry_eqb_eq a b : entry_eqb a b = true -> a = b.
@@ -47,6 +49,7 @@ Proof.
   | H : option_eqb entry_eqb _ _ = true |- _ => apply (option_eqb_eq _ entry_eqb_eq) in H
   | H : option_eqb errk_eqb _ _ = true |- _ => apply (option_eqb_eq _ errk_eqb_eq) in H
   | H : option_eqb Bool.eqb _ _ = true |- _ => apply (option_eqb_eq _ eqb_prop) in H
+  | H : option_eqb fres_eqb _ _ = true |- _ => apply (option_eqb_eq _ fres_eqb_eq) in H
   | H : option_eqb N.eqb _ _ = true |- _ => apply (option_eqb_eq _ (fun x y => proj1 (N.eqb_eq x y))) in H
   | H : list_eqb ev_eqb _ _ = true |- _ => apply (list_eqb_sound _ ev_eqb_eq) in H
   end.
@@ -58,10 +61,10 @@ Qed.
 Definition all_labs : list lab :=
   [LNew HAccept; LNew HReject; LNew HPause; LNew HErr; LReqCancel; LReqUpdate UOk; LReqUpdate UExt; LReqUpdate UErr;
    LReqUpdate UUnpause; LApiPause; LApiUnpause; LApiCancel; LApiUpdate; LGate GCont; LGate GPause; LGate GErr;
-   LSend true; LSend false; LHold; LRelease].
+   LGateHold GCont; LGateHold GPause; LGateHold GErr; LFinish; LSend true; LSend false; LHold; LRelease].
 
 Lemma all_labs_complete l : In l all_labs.
-Proof. destruct l as [[]| |[]| | | | |[]|[]| |]; simpl; tauto. Qed.
+Proof. destruct l as [[]| |[]| | | | |[]|[]| |[]| |]; simpl; tauto. Qed.
 
 Definition all_ords : list N := [0; 1; 2; 3; 4; 5].
 
@@ -75,6 +78,7 @@ Definition hash (s : state) : positive :=
     [bit (seen s); st_code s; bit (sig_pause s); bit (sig_upd s);
      match sig_err s with None => 0 | Some ENet => 1 | Some EReqCancel => 2 | Some EApiCancel => 3 | Some EHook => 4 end;
      tq s; bit (held s); match gate s with None => 0 | Some false => 1 | Some true => 2 end; bit (closed s);
+     match fin s with None => 0 | Some FNil => 1 | Some FPaused => 2 | Some (FErr _) => 3 end;
      match infl s with None => 0 | Some m => m mod 7 end; match pend s with None => 0 | Some m => m mod 7 end;
      unprot s; n_done s; n_net s; N.of_nat (length (evs s));
      match ent s with Some e => bit (e_uerr e) + 2 * bit (e_uext e) + 4 * bit (e_neterr e) | None => 0 end] 0).
@@ -195,12 +199,19 @@ Definition p_once (s : state) : bool := (n_done s <=? 1) && implb (n_done s =? 1
 Definition p_neterr (s : state) : bool := n_net s =? n_fail s.
 (* a final status waiting to be sent belongs to an entry in CompletingSend, and vice versa *)
 Definition termo (o : option N) : bool := match o with Some m => is_term m | None => false end.
-Definition p_completing (s : state) : bool := Bool.eqb (termo (infl s) || termo (pend s)) (st_code s =? 4).
-Definition p_safety (s : state) : bool := p_protect s && p_once s && p_neterr s && p_completing s.
+Definition fin_none (s : state) : bool := match fin s with None => true | Some _ => false end.
+(* (or to an executor that queued it and is parked before its FinishTask call) *)
+Definition p_completing (s : state) : bool :=
+  implb (st_code s =? 4) (termo (infl s) || termo (pend s)) &&
+  implb (termo (infl s) || termo (pend s)) ((st_code s =? 4) || negb (fin_none s)).
+(* once the executor is out of a response that is gone, no task of it is active or pending *)
+Definition p_task (s : state) : bool :=
+  implb (seen s && negb (has_ent s) && gate_free s && fin_none s) (tq s =? 0).
+Definition p_safety (s : state) : bool := p_protect s && p_once s && p_neterr s && p_completing s && p_task s.
 
 (* QUIESCENCE: nothing parked in a block hook, no task queued or active, nothing in flight, not paused *)
 Definition quiescent (s : state) : bool :=
-  gate_free s && (tq s =? 0) && (match infl s with None => true | Some _ => false end) && negb (st_code s =? 3).
+  gate_free s && fin_none s && (tq s =? 0) && (match infl s with None => true | Some _ => false end) && negb (st_code s =? 3).
 Definition p_retired (s : state) : bool :=
   implb (seen s && quiescent s)
         (negb (has_ent s) && (nprot s =? 1) && (unprot s =? 1) && (1 <=? n_done s + n_net s) &&
@@ -226,9 +237,10 @@ Definition p_step (s : state) (lb : lab) (s' : state) : bool :=
 Definition progress_lab (s : state) : option lab :=
   match gate s with
   | Some _ => Some (LGate GCont)
-  | None => match infl s with
-            | Some _ => Some (LSend true)
-            | None => if held s then Some LRelease
+  | None => match fin s, infl s with
+            | Some _, _ => Some LFinish
+            | None, Some _ => Some (LSend true)
+            | None, None => if held s then Some LRelease
                       else if st_code s =? 3 then Some LApiUnpause else None
             end
   end.
